@@ -606,6 +606,21 @@ def fold_module(before, after):
     return T.show(tb)
 
 
+def _nonint_expr(defs, x, depth=12):
+    """the constant expression defining operand x (casts / binops down to constants) involves a non-integer type"""
+    if depth == 0 or not x.startswith("%") or x[1:] not in defs:
+        return False
+    i = defs[x[1:]]
+    t = T.dst_type(i)
+    if not isinstance(t, str) or t not in T.INT_TYPES:
+        return True
+    if i[0] == "cast":
+        return _nonint_expr(defs, i[3], depth - 1)
+    if i[0] == "binop":
+        return _nonint_expr(defs, i[4], depth - 1) or _nonint_expr(defs, i[5], depth - 1)
+    return False
+
+
 def outside_validator_class(p, before, after):
     """rewrites the validator of pass `p` does not claim to cover (stated in LEVEL_NOTE)"""
     if p == "delunused":
@@ -682,6 +697,8 @@ def outside_validator_class(p, before, after):
                         for (c, j), (c0, j0) in zip(T.operand_slots(i), T.operand_slots(old[d])):
                             if c[j] != c0[j0] and (c[j][1:] in old or c[j][1:] in pars or not c[j].startswith("%")):
                                 return True
+                            if c[j] != c0[j0] and _nonint_expr(old, c0[j0]):
+                                return True     # folded expression over float / pointer constants (e.g. (i64) 2.7)
         return False
     return False
 
